@@ -3,7 +3,7 @@
 SYM = {1: b"a", 2: b"b", 3: b"A", 4: b"B", 5: b"_", 6: b"0", 7: b" ", 8: b"-", 9: b".",
        10: "é".encode(), 11: "É".encode(), 12: b"\xff", 13: b"\r", 14: b"\n", 15: b"\x00"}
 META = set("\\.+*?()|[]{}^$#&-~")
-INF = 99
+INF = 9999
 
 
 def sym_bytes(seq):
